@@ -127,7 +127,16 @@ Import ListNotations.
 """
 
 
-def _coqc(path: str, timeout: int) -> Tuple[int, str]:
+def _coqc(path: str, timeout: int, _retry: bool = True) -> Tuple[int, str]:
+    rc, out = _coqc_once(path, timeout)
+    if _retry and (rc < 0 or rc == 137):
+        # killed by a signal (the kernel's out-of-memory killer on an overloaded machine): not a verdict - once more
+        time.sleep(15)
+        rc, out = _coqc_once(path, timeout)
+    return rc, out
+
+
+def _coqc_once(path: str, timeout: int) -> Tuple[int, str]:
     try:
         p = subprocess.run(
             ["coqc", "-Q", ".", "RG", os.path.relpath(path, COQ_DIR)],
@@ -172,7 +181,18 @@ def run_shards(paths: Sequence[str], jobs: int = 16, timeout: int = 600):
 
     with ThreadPoolExecutor(max_workers=jobs) as ex:
         res = list(ex.map(lambda p: (p,) + _coqc(p, timeout), paths))
-    return res
+    # A shard that was KILLED (signal: the kernel's out-of-memory killer on a busy machine), timed out or ran out of
+    # memory says nothing about model and implementation: run it again, alone and with a longer limit, before it counts.
+    out = []
+    for p, rc, txt in res:
+        if rc < 0 or rc == 124 or rc == 137 or "Out of memory" in txt or "Stack overflow" in txt:
+            rc2, txt2 = _coqc(p, timeout * 3)
+            if rc2 < 0 or rc2 in (124, 137):
+                time.sleep(20)
+                rc2, txt2 = _coqc(p, timeout * 3)
+            rc, txt = rc2, txt2
+        out.append((p, rc, txt))
+    return out
 
 
 def eval_terms(name: str, imports: Sequence[str], terms: Sequence[str], timeout: int = 300) -> Tuple[int, str]:
